@@ -361,7 +361,7 @@ def w_chacha(spec, ctx):
         history = []
         earlier = []      # 16-byte probes of keystream already handed out
 
-        def produce(pos, n, after_failure=False):
+        def produce(pos, n, after_failure=False, why="overflow"):
             """returns (status, new_pos)"""
             history.append(("encrypt", n))
             try:
@@ -378,9 +378,9 @@ def w_chacha(spec, ctx):
                 # position unknown after a failed call: the data must not contain key stream already handed out
                 for (p, probe) in earlier:
                     if probe in ks:
-                        ctx.check(False, "chacha:keystream-reused-after-overflow",
-                                  "after the block-counter overflow error the object handed out key stream it had already produced "
-                                  "(counter wrapped around silently)",
+                        ctx.check(False, "chacha:keystream-reused-after-" + why,
+                                  "after the block-counter overflow error / a refused seek() the object handed out key stream it had "
+                                  "already produced (counter wrapped around or moved silently)",
                                   lambda: dict(desc, history=history[-8:], reused_position=p))
                         break
                 else:
@@ -460,6 +460,10 @@ def w_chacha(spec, ctx):
             else:
                 ctx.ev()
                 ctx.count("chacha_seek_beyond_refused")
+                # a refused seek() must not have moved the block counter: whatever the object hands out next
+                # (it may also keep failing) must not be key stream it has already produced
+                for n in (64, 130):
+                    produce(None, n, after_failure=True, why="refused-seek")
         if ctx.want_sample():
             ctx.sample(dict(desc, target=target, pattern=pattern, history=history[:12]))
 
